@@ -308,6 +308,16 @@ Theorem C20_graph_acyclic_terminates : forall h v,
 Proof. exact gsizeof_ordered. Qed.
 Print Assumptions C20_graph_acyclic_terminates.
 
+(** an INTERIOR pointer — r := &ring{slots [n]E; cur *E} with r.cur = &r.slots[0], which has the
+    address of r itself — is not a cycle: it costs its header and its pointee like any pointer
+    (the value text repeats the part pointed to; harness/c20.go makes the real pointer interior) *)
+Theorem C20_interior_pointer_counted : forall x l,
+  supported x -> Forall supported l ->
+  sizeof (VPtr (Some (VStruct [VArray (x :: l); VPtr (Some x)])))
+  = Some ((8 + sizes (x :: l)) + (8 + spec_size x)).
+Proof. exact interior_pointer_counted. Qed.
+Print Assumptions C20_interior_pointer_counted.
+
 (** outside the domain: on a cyclic value (a struct holding a pointer to itself) the recursion
     exhausts every fuel — the real code overflows its stack; C20 is about acyclic values *)
 Theorem C20_graph_cycle_diverges : forall fuel, gsizeof [GStruct [GRef 0]] fuel (GRef 0) = None.
